@@ -344,10 +344,19 @@ class Sym:
     def __abs__(s):
         if s.is_const():
             return Sym.const(abs(s.cval()))
-        if W.imag is not None and W.imag in s.atoms():
-            re, im = s.re_im()
-            return (re * re + im * im).sqrt()
-        return (s * s).sqrt()
+        # the radicand is formed WITHOUT nilpotent truncation: under eps^(N+1) = 0 the square of a value of pure order > N/2 would
+        # vanish and a non-zero value would get magnitude 0 (and be "cleaned" by |x| <= tol tests) -- an artefact of the truncation
+        saved_nil = dict(NILPOTENT)
+        NILPOTENT.clear()
+        try:
+            if W.imag is not None and W.imag in s.atoms():
+                re, im = s.re_im()
+                rad = re * re + im * im
+            else:
+                rad = s * s
+            return rad.sqrt()
+        finally:
+            NILPOTENT.update(saved_nil)
 
     # ufunc-style methods used by numpy object loops
     def conjugate(s):
